@@ -90,8 +90,10 @@ MANIFEST = {
             "reply stored before it, provided no Vary variant of that URL was in the store at that moment (purged_url_never_served_stale_partial; "
             "without the proviso false: vary_variant_survives_counterexample, confirmed end to end). The purged URLs always include the "
             "request's own URL (request_url_purged), a Location/Content-Location that starts with / (absolute_path_location_purged) and an "
-            "absolute one that passes sameUrlHosts in exactly the text given (same_host_location_purged_exact); sameUrlHosts accepts only "
-            "equal authority texts (sameUrlHosts_sound: other hosts are never purged). A relative-path Location is not purged in this tree "
+            "absolute one that passes sameUrlHosts in exactly the text given (same_host_location_purged_exact), in particular every URL of the "
+            "request's scheme/host/port spelled as Squid itself prints it (canonical_same_host_location_purged); sameUrlHosts accepts only "
+            "equal authority texts (sameUrlHosts_sound) and nothing outside the request's authority is ever purged "
+            "(purged_urls_stay_on_the_request_host). A relative-path Location is not purged in this tree "
             "because addRelativePath leaves the memoised absolute form in place (relative_location_counterexample under the regenerated "
             "flag; relative_location_purged once the flag flips; fix diff in notes/fixes). The model (purgesOthers/respMaybeCacheable tables, "
             "PathChars, sameUrlHosts, urlIsRelative, addRelativePath/absolute with the memo, purgeEntriesByUrl/Header, maybePurgeOthers, "
@@ -900,6 +902,18 @@ def vary_scenario(rng, purge):
                             g("0", a, x1, True), g("0", a, x2, True), g("0", a, None, True)])
 
 
+def vary_walk(rng):
+    """random history over one URL whose replies mostly (not always) vary: variants, HEAD, absent header, purging and other requests"""
+    a = rng.choice([b"v/a", b"v/b?x=1"])
+    steps = []
+    for _ in range(rng.range(3, 9)):
+        if rng.chance(1, 4):
+            steps.append(u(rng.choice(["POST", "PUT", "OPTIONS", "DELETE", "BREW"]), "0", a, rng.choice([200, 200, 404])))
+        else:
+            steps.append(g("0", a, rng.choice([b"one", b"two", None]), rng.chance(4, 5), head=rng.chance(1, 6)))
+    return "S " + " ".join(steps)
+
+
 def exhaustive_s():
     """every e2e method x a status on each side of 400 x the clean Location kinds (thorough)"""
     for m in E2E_METHODS:
@@ -941,6 +955,8 @@ def cases(rng, tier):
         out.append(s_scenario(rs, KNOWN_KINDS, E2E_METHODS, quiet_ok=True))
     for _ in range(20 if thorough else 4):
         out.append(vary_scenario(rs, purge=True))
+    for _ in range(150 if thorough else 12):
+        out.append(vary_walk(rs))
     out += list(a_cases(rng.fork("a"), 300 if thorough else 40))
     return out
 
